@@ -365,6 +365,41 @@ def gen_config_failing(rng, tree, spelling):
 
 
 
+# ------------------------------------------------------------------ a template that leaves an import to goimports
+RAND_TEMPLATE = """// Code generated by the C06 rand template. DO NOT EDIT.
+package {{.PkgName}}
+{{ range .Interfaces }}{{ if index .TemplateData "explicit-rand" }}
+import "math/rand"
+{{ end }}{{ end }}
+{{ range .Interfaces }}
+// Pick{{.Name}} uses the qualifier `rand` without the template registering or printing an import
+// (unless the switch above is on): resolving it is left to the goimports formatter.
+var Pick{{.Name}} = rand.Int
+{{ end }}
+"""
+
+
+def gen_config_goimports(rng, tree):
+    """Default formatter (goimports), a user template that writes `rand.Int` (exported by
+    crypto/rand AND math/rand) and leaves the import to the formatter, 8 interfaces of one package
+    each in its own file in ONE output directory, one of them importing math/rand explicitly.
+    goimports alone breaks the tie by its own fixed rules, so every clean run and every rerun over
+    the produced tree must give byte-identical files."""
+    wide = next(tp for tp in tree if tp["path"] == "wide")
+    names = [d["name"] for f in wide["files"] for d in f["decls"] if d["name"].startswith("W")]
+    chosen = rng.sample(names, 8)
+    explicit = rng.choice(chosen)
+    c = cfg(all=False, dir=("fixed", "randmocks"), file=("iface", "r_", ".go"), pkgname=("fixed", "randmocks"),
+            tmpl="file://./tpl/rand.templ", require=False)
+    ifs = [{"name": n, "cfg": cfg(data={"explicit-rand": True}) if n == explicit else (None if rng.random() < 0.5 else cfg()), "entries": []} for n in chosen]
+    # a second, flat package writes into the same directory with the built-in template
+    other = {"path": "f00", "cfg": cfg(all=True, dir=("fixed", "randmocks"), file=("pkg", "zz_", ".go"), pkgname=("fixed", "randmocks")), "ifaces": []}
+    return ({"root": cfg(force=True), "pkgs": [{"path": "wide", "cfg": c, "ifaces": ifs}, other],
+             "tpl": {"rand.templ": {"kind": "template", "ok": True, "text": RAND_TEMPLATE}}, "tree": tree},
+            {"goimports_leaves_import": {"files_in_one_directory": 9, "explicit_math_rand": explicit}})
+
+
+
 def corpus_variant_b(tree):
     """Exit status depends on the map order with the pinned cache key: f00 does not require a
     schema (its template-schema is permissive), f01 requires its own schema and violates it."""
@@ -515,7 +550,7 @@ def materialize(ctx, case, d):
         (d / rel).mkdir(parents=True, exist_ok=True)
         (d / rel / "types.go").write_text("package %s\n\n%s" % (pname, body))
     for rel, f in case["tpl"].items():
-        (d / "tpl" / rel).write_text(C12.PROBE_OK if f["kind"] == "template" else json.dumps(f["schema"]))
+        (d / "tpl" / rel).write_text((f.get("text") or C12.PROBE_OK) if f["kind"] == "template" else json.dumps(f["schema"]))
     (d / ".mockery.yml").write_text(yaml_cfg(case))
 
 
@@ -664,6 +699,10 @@ def check(ctx, only=None):
         # small ones that must fail in every run (the flip probability per run can be low: more runs)
         special = {}
         c, h = gen_config_funcs(ctx.rng, gen_tree(ctx.rng))
+        special[len(cases)] = max(k, 8)
+        cases.append(c)
+        hists.append(h)
+        c, h = gen_config_goimports(ctx.rng, gen_tree(ctx.rng))
         special[len(cases)] = max(k, 8)
         cases.append(c)
         hists.append(h)
